@@ -62,7 +62,11 @@ let run (c : s list) : s option =
     Some (e_outcome e_bdd (mk_conjunctive_clause (n_of_int (List.length v)) (pv_of_valuation v)))
   | A "cmp_size" :: a :: b :: _ -> Some (e_ord (cmp_size (d_bdd a) (d_bdd b)))
   | A "cmp_structural" :: a :: b :: _ -> Some (e_ord (cmp_structural (d_bdd a) (d_bdd b)))
-  | A "cmp_cardinality" :: a :: b :: _ -> Some (e_ord (cmp_cardinality (d_bdd a) (d_bdd b)))
-  | A "cmp_cardinality_strict" :: a :: b :: _ -> Some (e_opt e_ord (cmp_cardinality_strict (d_bdd a) (d_bdd b)))
-  | A "exact_card" :: a :: _ -> Some (e_n (card_bf (d_bdd a)))
+  (* the reference count model is an un-memoised recursion (exponential on diagrams with much sharing): beyond 40 variables
+     the model answer is withheld (TOOBIG) and the judge falls back on its independent exact counter *)
+  | A "cmp_cardinality" :: a :: b :: _ when int_of_n (nvars (d_bdd a)) > 40 || int_of_n (nvars (d_bdd b)) > 40 -> Some (A "TOOBIG")
+  | A "cmp_cardinality_strict" :: a :: b :: _ when int_of_n (nvars (d_bdd a)) > 40 || int_of_n (nvars (d_bdd b)) > 40 -> Some (A "TOOBIG")
+  | A "cmp_cardinality" :: a :: b :: _ -> Some (e_ord (cmp_cardinality_with exact_cardinality (d_bdd a) (d_bdd b)))
+  | A "cmp_cardinality_strict" :: a :: b :: _ -> Some (e_opt e_ord (cmp_cardinality_strict_with exact_cardinality (d_bdd a) (d_bdd b)))
+  | A "exact_card" :: a :: _ -> Some (e_n (exact_cardinality (d_bdd a)))
   | _ -> None
